@@ -1,0 +1,94 @@
+//go:build verif
+
+package raft
+
+import (
+	"google.golang.org/protobuf/proto"
+
+	pb "go.etcd.io/raft/v3/raftpb"
+	"go.etcd.io/raft/v3/tracker"
+)
+
+// VerifClone returns an independent copy of the node that reads from the given
+// storage (normally a VerifClone of the original's storage). Every slice, map
+// and mutable struct the node may write to is copied; protobuf messages and
+// entries, which the library treats as immutable once stored, are shared. The
+// harness validates every clone by comparing VerifFingerprint of copy and
+// original, and re-fingerprints the original after the copy has been used.
+func (rn *RawNode) VerifClone(st Storage) *RawNode {
+	r := rn.raft
+	nr := *r
+
+	l := *r.raftLog
+	l.storage = st
+	l.unstable.entries = append([]*pb.Entry(nil), r.raftLog.unstable.entries...)
+	nr.raftLog = &l
+
+	cfg := r.trk.Config.Clone()
+	cfg.AutoLeave = r.trk.Config.AutoLeave
+	nr.trk = tracker.ProgressTracker{
+		Config:           cfg,
+		Progress:         make(tracker.ProgressMap, len(r.trk.Progress)),
+		Votes:            make(map[uint64]bool, len(r.trk.Votes)),
+		MaxInflight:      r.trk.MaxInflight,
+		MaxInflightBytes: r.trk.MaxInflightBytes,
+	}
+	for id, pr := range r.trk.Progress {
+		p := *pr
+		if pr.Inflights != nil {
+			p.Inflights = pr.Inflights.Clone()
+		}
+		nr.trk.Progress[id] = &p
+	}
+	for id, v := range r.trk.Votes {
+		nr.trk.Votes[id] = v
+	}
+
+	nr.readStates = append([]ReadState(nil), r.readStates...)
+	nr.msgs = append([]*pb.Message(nil), r.msgs...)
+	nr.msgsAfterAppend = append([]*pb.Message(nil), r.msgsAfterAppend...)
+	nr.pendingReadIndexMessages = append([]*pb.Message(nil), r.pendingReadIndexMessages...)
+
+	ro := &readOnly{
+		option:           r.readOnly.option,
+		acks:             make(map[uint64]uint64, len(r.readOnly.acks)),
+		unconfirmedReads: append([]*readIndexRequest(nil), r.readOnly.unconfirmedReads...),
+		confirmedReads:   r.readOnly.confirmedReads,
+	}
+	for id, v := range r.readOnly.acks {
+		ro.acks[id] = v
+	}
+	nr.readOnly = ro
+
+	switch nr.state {
+	case StateFollower:
+		nr.step, nr.tick = stepFollower, nr.tickElection
+	case StateCandidate, StatePreCandidate:
+		nr.step, nr.tick = stepCandidate, nr.tickElection
+	case StateLeader:
+		nr.step, nr.tick = stepLeader, nr.tickHeartbeat
+	}
+
+	ss := *rn.prevSoftSt
+	return &RawNode{
+		raft:               &nr,
+		asyncStorageWrites: rn.asyncStorageWrites,
+		prevSoftSt:         &ss,
+		prevHardSt:         rn.prevHardSt,
+		stepsOnAdvance:     append([]*pb.Message(nil), rn.stepsOnAdvance...),
+	}
+}
+
+// VerifClone returns an independent copy of the storage.
+func (ms *MemoryStorage) VerifClone() *MemoryStorage {
+	ms.Lock()
+	defer ms.Unlock()
+	c := &MemoryStorage{
+		hardState: ms.hardState,
+		ents:      append([]*pb.Entry(nil), ms.ents...),
+	}
+	if ms.snapshot != nil {
+		c.snapshot = proto.Clone(ms.snapshot).(*pb.Snapshot)
+	}
+	return c
+}
